@@ -29,7 +29,6 @@ def run(run):
     if not H.build(run):
         return
     res = H.run_hist(run, "C12")
-    H.report_hist_common(run, res, "C12")
     for p in res["props"]:
         if p["ok"] or not p["prop"].startswith("c12-"):
             continue
@@ -37,6 +36,7 @@ def run(run):
         run.violation(c12_key(p, sc),
                       {"script": sc, "verdict": p, "trace": H.trace_of(res, p["script"]), "how": H.REPLAY_HOW},
                       "history %s: %s fails on the implementation's observables: %s" % (p["script"], p["prop"], p["text"]))
+    H.report_hist_common(run, res, "C12")
     H.hist_coverage(run, res, "; at every snapshot with state Running (read before and after the observations) the "
                               "harness dials the configured address and issues one request per route of the path universe "
                               "checking the per-route marker header; after Run returned it net.Listen()s on every address "
